@@ -37,6 +37,7 @@ var wireCols = []struct{ Name, Decl string }{
 	{"dt", "DATE"}, {"ts6", "DATETIME(6)"}, {"ts0", "DATETIME"}, {"ts3", "DATETIME(3)"}, {"tst", "TIMESTAMP(6)"},
 	{"tm", "TIME(6)"}, {"y", "YEAR"}, {"b1", "BIT(1)"}, {"b12", "BIT(12)"}, {"b64", "BIT(64)"},
 	{"en", "ENUM('a','B','x y','2','1')"}, {"st", "SET('a','B','x y','2','1')"},
+	{"vc", "VARCHAR(10)"}, {"ch", "CHAR(5)"}, {"vb", "VARBINARY(6)"}, {"bn", "BINARY(4)"}, {"tx", "TEXT"}, {"js", "JSON"},
 }
 
 type wireEnv struct {
@@ -172,6 +173,13 @@ func genWire(r *lib.RNG) caseT {
 	v = append(v, fmt.Sprint(r.Intn(2)), fmt.Sprint(r.Intn(4096)), fmt.Sprint(r.Uint64()>>uint(r.Intn(64))))
 	v = append(v, pickS(r, "'a'", "'B'", "'x y'", "'2'", "'1'"))
 	v = append(v, pickS(r, "''", "'a'", "'a,B'", "'x y,1'", "'a,B,x y,2,1'", "'2'", "'1,2'"))
+	v = append(v, pickS(r, "''", "'a'", "'日本語'", "'x y  '", "'0123456789'", "'€😀'"))
+	v = append(v, pickS(r, "''", "'ab '", "'  a'", "'日本'", "'abcde'"))
+	v = append(v, pickS(r, "''", "'a'", "x'00ff80'", "x'e697a5'", "'abcdef'"))
+	v = append(v, pickS(r, "''", "'ab'", "x'00'", "x'ff00ff00'", "'abcd'"))
+	v = append(v, pickS(r, "''", "'some text, with ''quotes'' and 日本'", "'"+strings.Repeat("long ", r.Intn(60))+"'"))
+	v = append(v, pickS(r, "'null'", "'true'", "'0'", "'-9223372036854775808'", "'18446744073709551615'", "'\"a b\"'", "'\"日本\"'",
+		"'[]'", "'[1, \"x\", null]'", "'{\"b\": 1, \"aa\": [true, \"y\"]}'", "'{\"k\": {\"n\": 9007199254740993}}'"))
 	for i := range v {
 		if r.Chance(1, 25) {
 			v[i] = "NULL"
